@@ -25,7 +25,7 @@ EXPLANATION = (
     "that was grouped); optional `feature` arguments are tested with `is None` (0 and '' are column labels)."
 )
 NOT_DECIDED = "agreement of summary contents with transform outputs on data"
-FLOORS = {"R-summary-scope": 5, "R-measure-formula": 4, "R-single-table": 4, "R-history-complete": 6, "R-history-fields": 2, "R-readonly-queries": 30}
+FLOORS = {"R-summary-scope": 6, "R-measure-formula": 4, "R-single-table": 4, "R-history-complete": 6, "R-history-fields": 2, "R-readonly-queries": 30}
 
 
 def _emits(node, sink="summaries"):
@@ -63,6 +63,24 @@ def rule_summary_scope(ctx):
                 ok = any(pol and cmp_canon(t) == (var, "in", "requested_features") for t, pol in conds)
                 why = f"loop over `{unparse(outer.iter)}` emits rows without testing `{var} in requested_features`"
         ctx.ob(R, construct(fi, f"rows emitted in the loop over {unparse(outer.iter) if outer is not None else '?'} are restricted to the requested features"), ok, loc(fi, e), "" if ok else why)
+    # the extra row for missing values merged into a group: str_nan is looked for among ALL values of
+    # the feature (keys of the label table, values() / contains() of the order), never among the
+    # leaders only (`str_nan in order`): a merged str_nan is no leader any more
+    sdefs = single_defs(fi.node)
+    nan_tests = []
+    for n in walk_no_nested(fi.node):
+        if isinstance(n, ast.If):
+            for c in conjuncts(n.test):
+                cc = cmp_canon(c)
+                if cc and cc[0] == "self.str_nan" and cc[1] == "in" and isinstance(c, ast.Compare):
+                    nan_tests.append((n, unparse(inline(fi.node, c.comparators[0], defs=sdefs)).replace(" ", "")))
+                if isinstance(c, ast.Call) and call_name(c) == "contains" and "str_nan" in unparse(c):
+                    nan_tests.append((n, "<contains>"))
+    emitting = [(n, t) for n, t in nan_tests if any(True for _ in _emits(n, sink))]
+    okn = bool(emitting) and all(
+        t == "<contains>" or t.endswith(".values()") or "labels_per_values" in t or "_get_labels_per_values" in t for _, t in emitting)
+    ctx.ob(R, construct(fi, "missing values merged into a group are still listed: str_nan is searched among all values of the feature"), okn, loc(fi, emitting[0][0] if emitting else None),
+           "" if okn else f"the test is `self.str_nan in {[t for _, t in emitting]}`: membership in a GroupedList looks at the leaders only, so a str_nan that was merged into another group is not found and its row disappears from the summary")
     # requested_features is self.features, or [feature] for a kept feature
     assigns = [n for n in walk_no_nested(fi.node) if isinstance(n, ast.Assign) and unparse(n.targets[0]) == "requested_features"]
     vals = sorted(unparse(a.value) for a in assigns)
@@ -239,6 +257,7 @@ MUTANTS = [
     M("D5-reverted: NaN rows of other quantitative features leak", [(F_BASE, "            if feature in requested_features and self.str_nan in raw_labels_per_values[feature]:", "            if self.str_nan in raw_labels_per_values[feature]:")], "R-summary-scope", quick=True),
     M("summary loops over all features", [(F_BASE, "        for feature in requested_features:\n            # adding each value/label", "        for feature in self.features:\n            # adding each value/label")], "R-summary-scope"),
     M("summary accepts dropped features", [(F_BASE, "            assert feature in self.features, (\n                f\"Discretization of feature {feature} was not \" \"requested or it has been dropped.\"\n            )\n", "")], "R-summary-scope", "requested features ="),
+    M("NaN row searched among the leaders only", [(F_BASE, "            if feature in requested_features and self.str_nan in raw_labels_per_values[feature]:", "            if feature in requested_features and self.str_nan in self.values_orders[feature]:")], "R-summary-scope", "merged into a group"),
     M("summary(feature) tests the label by truthiness", [(F_BASE, "        requested_features = self.features[:]\n        if feature is not None:", "        requested_features = self.features[:]\n        if feature:")], "R-summary-scope", "is None"),
     M("n_obs taken once from the table with the missing-value row", [(F_BC, "        n_obs = xagg.apply(sum).sum()  # number of observations for xtabs\n        associations_xagg = [\n            self._association_measure(grouped_xagg, n_obs=n_obs)", "        associations_xagg = [\n            self._association_measure(grouped_xagg, n_obs=self._n_obs)")], "R-measure-formula", "n_obs"),
     M("D25-reverted: summary reads the global dropna", [(F_BASE, "                if not (not self.features_dropna[feature] and value == self.str_nan):", "                if not (not self.dropna and value == self.str_nan):")], "R-single-table", "features_dropna", quick=True),
